@@ -190,6 +190,39 @@ pub fn run_c07(rep: &mut Report, thorough: bool) {
         let o2 = BfsOpts { stage: "bfs-c07-trace".into(), max_depth: if thorough { 5 } else { 3 }, max_states: o.max_states, abstract_acc: true, differential: false };
         bfs::bfs(&tcfg, &events, &s.cookies, &o2, rep);
     }
+    // validation persists: a flow that presented its cookie and was answered keeps being answered
+    // (with exact arithmetic) after 66 000 other flows were validated in the same table
+    {
+        let t0 = std::time::Instant::now();
+        let f = s.flows[0].1.clone();
+        let c = s.cookies[&key_of(&f)];
+        let head = vec![f.tcp(1000, c.wrapping_add(1), F_PSH | F_ACK, HTTP_REQ)];
+        let second: &[u8] = b"HEAD /again HTTP/1.1\r\n\r\n";
+        let tail = vec![f.tcp(1000 + HTTP_REQ.len() as u32, c.wrapping_add(1).wrapping_add(500), F_PSH | F_ACK, second)];
+        match capacity_run(&s.cfg, &head, 66000, &tail) {
+            Ok((h, t)) => {
+                rep.sink.count("frames", 66002);
+                let answered_first = h[0].reply.is_some();
+                let ok = t[0].reply.as_deref().and_then(|r| parse_eth(r).and_then(|e| parse_ipv4(e.payload).and_then(|ip| parse_tcp(ip.payload).map(|t| (t.flags, t.seq, t.ack))))) ;
+                let want_seq = c.wrapping_add(1).wrapping_add(500);
+                let want_ack = 1000u32.wrapping_add(HTTP_REQ.len() as u32).wrapping_add(second.len() as u32);
+                let good = matches!(ok, Some((fl, sq, ak)) if fl & F_ACK != 0 && sq == want_seq && ak == want_ack);
+                if answered_first && !good {
+                    rep.sink.violation(Violation {
+                        prop: "C07".into(),
+                        key: "validated-flow-forgotten".into(),
+                        what: format!("a flow that presented its cookie and was answered is no longer answered correctly after 66000 other flows were validated: got {:?}, want ACK seq={} ack={}", ok, want_seq, want_ack),
+                        cfg: s.cfg.clone(),
+                        cmds: vec![Cmd::Frame(head[0].clone()), Cmd::Frame(tail[0].clone())],
+                        idx: 0,
+                        stage: "validation-persists".into(),
+                    });
+                }
+            }
+            Err(e) => rep.sink.machinery_errors.push(e),
+        }
+        rep.stage("validation-persists", "one answered flow, then 66000 other flows validated in the same table, then a later segment of the first flow (other acknowledgement number): answered with exact arithmetic", 66002, t0);
+    }
     // address-family neighbours: the IPv4 flow, the IPv6 flow between the IPv4-mapped forms of the
     // same addresses, and between the IPv4-compatible forms, same ports: three distinct flows
     {
@@ -282,6 +315,31 @@ pub fn run_c07(rep: &mut Report, thorough: bool) {
     rep.stage("arith", "validated flow: 7 sequence numbers x 7 payload lengths x data offsets 5..15 (TCP options); FIN|ACK acknowledgement high half over all 65536 values", total, t0);
 }
 
+/// One process: `head` frames, then `n` other flows each sending one valid-cookie data segment
+/// ("x"), then `tail`.  Returns the observations of head and tail frames.
+pub fn capacity_run(cfg: &Cfg, head: &[Vec<u8>], n: usize, tail: &[Vec<u8>]) -> Result<(Vec<crate::driver::Out>, Vec<crate::driver::Out>), String> {
+    let mut cmds: Vec<Cmd> = vec![Cmd::Reset];
+    cmds.extend(head.iter().map(|f| Cmd::Frame(f.clone())));
+    let mut seen = std::collections::HashSet::new();
+    let mut k = 0usize;
+    let mut sp = 0u32;
+    while k < n && sp < 4 * 65536 {
+        let f = flow(sp & 1 == 1, (sp >> 1) as u16, 8000 + (sp >> 17) as u16);
+        let g = crate::sip::cookie_guess(cfg.key, &f.cip, &f.sip, f.cport, f.sport);
+        if seen.insert(g) {
+            cmds.push(Cmd::Frame(f.tcp(1, g.wrapping_add(1), F_PSH | F_ACK, b"x")));
+            k += 1;
+        }
+        sp += 1;
+    }
+    cmds.extend(tail.iter().map(|f| Cmd::Frame(f.clone())));
+    let mut d = crate::driver::Driver::spawn(cfg)?;
+    let outs = d.exec(&cmds).map_err(|e| format!("{:?}", e))?;
+    let h = outs[1..1 + head.len()].to_vec();
+    let t = outs[outs.len() - tail.len()..].to_vec();
+    Ok((h, t))
+}
+
 /// SYN-sweep tuples, group by learned cookie, return colliding pairs.
 pub fn find_collisions(cfg: &Cfg, ntuples_log2: u32, rep: &mut Report) -> Vec<(Flow, Flow, u32)> {
     let n = 1u64 << ntuples_log2;
@@ -348,6 +406,15 @@ pub fn run_c08(rep: &mut Report, thorough: bool) {
     interleavings(&s, rep, thorough);
     structured_pairs(&s.cfg, rep);
     context_switch(&s.cfg, rep);
+    {
+        // depth-2 histories over the base corpus and the L2-L4 set, process-level differential
+        let mut fr: Vec<crate::props::pairs::PFrame> = crate::props::pairs::l2l4_frames();
+        for b in base_frames(&s.cookies).into_iter() {
+            fr.push(crate::props::pairs::pf(&b.name, b.frame));
+        }
+        let nmax = if thorough { fr.len() } else { fr.len().min(90) };
+        crate::props::pairs::pair_histories(rep, &s.cfg, "pair-histories", &fr[..nmax]);
+    }
     // (iv) collision stage
     if thorough {
         let t0 = std::time::Instant::now();
@@ -741,4 +808,66 @@ pub fn run_c09(rep: &mut Report, thorough: bool) {
         &mut rep.sink,
     );
     rep.stage("growth-once", "200 valid data segments on one flow: table size stays 1", 200, t0);
+    // many validated flows in ONE table: size == number of flows validated so far (no pruning, no
+    // cap, no wrap of a narrow counter), and afterwards every flow still owns its partial request
+    let t0 = std::time::Instant::now();
+    let want_n: usize = 70000;
+    let mut seen = std::collections::HashSet::new();
+    let mut fl: Vec<(Flow, u32)> = Vec::new();
+    let mut sp = 0u32;
+    while fl.len() < want_n && sp < 4 * 65536 {
+        let f = flow(sp & 1 == 1, (sp >> 1) as u16, 80 + (sp >> 17) as u16);
+        let g = crate::sip::cookie_guess(s.cfg.key, &f.cip, &f.sip, f.cport, f.sport);
+        // flows whose cookie equals an earlier one are skipped (aliasing is the listed finding D13)
+        if seen.insert(g) {
+            fl.push((f, g));
+        }
+        sp += 1;
+    }
+    let half = HTTP_REQ.len() / 2;
+    let mut cmds: Vec<Cmd> = fl.iter().map(|(f, g)| Cmd::Frame(f.tcp(1000, g.wrapping_add(1), F_PSH | F_ACK, &HTTP_REQ[..half]))).collect();
+    cmds.extend(fl.iter().map(|(f, g)| Cmd::Frame(f.tcp(1000 + half as u32, g.wrapping_add(1), F_PSH | F_ACK, &HTTP_REQ[half..]))));
+    let nfl = fl.len();
+    let opts = RunOpts::new("many-flows").stateful().chunk(1).no_monitor();
+    let cfg3 = s.cfg.clone();
+    engine::run(
+        &s.cfg,
+        1,
+        &opts,
+        |_| cmds.clone(),
+        |it: &Item, sk: &mut Sink| {
+            sk.count("frames", it.cmds.len() as u64 - 1);
+            let mut accepted = 0usize;
+            for k in 0..nfl {
+                let o = &it.outs[1 + k];
+                if o.reply.is_some() {
+                    accepted += 1;
+                }
+                if o.n as usize != accepted {
+                    sk.violation(Violation { prop: "C09".into(), key: "table-size-many-flows".into(), what: format!("after {} distinct validated flows the table has {} entries", accepted, o.n), cfg: cfg3.clone(), cmds: vec![it.cmds[1 + k].clone()], idx: k as u64, stage: "many-flows".into() });
+                    return;
+                }
+            }
+            sk.count("many_flows_validated", accepted as u64);
+            if accepted * 10 < nfl * 9 {
+                sk.machinery_errors.push(format!("many-flows: only {} of {} flows were accepted (cookie guess does not match the responder)", accepted, nfl));
+                return;
+            }
+            for k in 0..nfl {
+                let o = &it.outs[1 + nfl + k];
+                let first_accepted = it.outs[1 + k].reply.is_some();
+                let data = o.reply.as_deref().and_then(crate::mask::app_payload).map(|(_, p)| p).unwrap_or_default();
+                if first_accepted && !data.starts_with(b"HTTP/1.1 401") {
+                    sk.violation(Violation { prop: "C09".into(), key: "state-lost-many-flows".into(), what: format!("flow #{} of {} lost its partial request while other flows were validated (second half answered with {} bytes)", k, nfl, data.len()), cfg: cfg3.clone(), cmds: vec![it.cmds[1 + k].clone(), it.cmds[1 + nfl + k].clone()], idx: k as u64, stage: "many-flows".into() });
+                    return;
+                }
+                if o.n as usize != accepted {
+                    sk.violation(Violation { prop: "C09".into(), key: "table-size-many-flows".into(), what: format!("table has {} entries while {} flows are validated", o.n, accepted), cfg: cfg3.clone(), cmds: vec![it.cmds[1 + nfl + k].clone()], idx: k as u64, stage: "many-flows".into() });
+                    return;
+                }
+            }
+        },
+        &mut rep.sink,
+    );
+    rep.stage("many-flows", "N distinct flows (distinct cookies) each send the first half of a request behind a valid cookie, then each the second half, in ONE table: size == flows validated so far at every step, every flow answered", 2 * nfl as u64, t0);
 }
